@@ -310,6 +310,13 @@ def run_loop(eng, s, fr, anchor, spec, idxname, body_guard, bind, n, after_exit)
                 pass
             except _Break:
                 return
+            # clauses anchored at the end of an iteration (the trace holds exactly this iteration's events on this path)
+            saved_cf = getattr(eng, 'cur_frame', None)
+            eng.cur_frame = fr
+            try:
+                eng.B.checkpoint(eng, 'iteration-end:%s' % anchor)
+            finally:
+                eng.cur_frame = saved_cf
             if is_for and eng.st.ghost.get('live_iter') and eng.st.ghost.get('live_iter_mutated'):
                 # CPython: changing a dict's size while iterating it raises RuntimeError at the next step
                 eng.prove('unexpected-exception.RuntimeError:dict-changed-size-during-iteration#%s' % anchor,
